@@ -391,6 +391,87 @@ func TestDrive_C15(t *testing.T) {
 	}
 	w.Add(func(id int) string { return fmt.Sprintf("CaseStress %d 6 %d %d", id, rounds4, bad4) },
 		map[string]any{"scenario": "the executor's OnDone listener blocks on a gate: meanwhile Done must be open, IsDone false and Get blocked (all four async entry points, success and failure); bad = rounds in which that did not hold", "rounds": rounds4, "bad": bad4}, true, "done-after-listeners")
+	// one Executor that carries a context, used for several executions: ExecutionResult.Cancel() cancels ITS execution -- not
+	// the executions started from the same Executor before (still in flight), after, or after a Cancel() on one already done
+	bad5, rounds5 := 0, 0
+	for _, entry := range asyncEntries {
+		for _, pol := range []string{"retry", "hedge", "none"} {
+			for _, mode := range []string{"cancel-first-then-run", "cancel-done-then-run", "cancel-older-of-two"} {
+				rounds5++
+				synctest.Test(t, func(t *testing.T) {
+					var pols []failsafe.Policy[int]
+					switch pol {
+					case "retry":
+						pols = append(pols, retrypolicy.Builder[int]().WithMaxRetries(1).Build())
+					case "hedge":
+						pols = append(pols, hedgepolicy.BuilderWithDelay[int](time.Hour).Build())
+					}
+					ctx, stop := context.WithCancel(context.Background())
+					defer stop()
+					ex := failsafe.NewExecutor[int](pols...).WithContext(ctx)
+					start := func(dur time.Duration, v int) failsafe.ExecutionResult[int] {
+						fn := func() (int, error) { time.Sleep(dur); return v, nil }
+						switch entry {
+						case "GetAsync":
+							return ex.GetAsync(fn)
+						case "GetWithExecutionAsync":
+							return ex.GetWithExecutionAsync(func(failsafe.Execution[int]) (int, error) { return fn() })
+						case "RunAsync":
+							return ex.RunAsync(func() error { _, e := fn(); return e })
+						default:
+							return ex.RunWithExecutionAsync(func(failsafe.Execution[int]) error { _, e := fn(); return e })
+						}
+					}
+					want := 42
+					if strings.HasPrefix(entry, "Run") {
+						want = 0
+					}
+					ok := func(ar failsafe.ExecutionResult[int]) bool { r, err := ar.Get(); return err == nil && r == want }
+					switch mode {
+					case "cancel-first-then-run":
+						a := start(time.Second, 42)
+						time.Sleep(time.Millisecond)
+						a.Cancel()
+						if _, err := a.Get(); !errors.Is(err, failsafe.ErrExecutionCanceled) && pol != "none" {
+							bad5++ // (without a policy nothing looks at the cancellation: the function's result comes back)
+						}
+						if !ok(start(time.Millisecond, 42)) {
+							bad5++
+						}
+						// ... and a synchronous one on the same Executor
+						if r, err := ex.Get(func() (int, error) { return 42, nil }); err != nil || r != 42 {
+							bad5++
+						}
+					case "cancel-done-then-run":
+						a := start(time.Millisecond, 42)
+						if !ok(a) {
+							bad5++
+						}
+						a.Cancel() // documented: no effect on an execution that is done
+						if !ok(start(time.Millisecond, 42)) {
+							bad5++
+						}
+					default:
+						a := start(time.Second, 42)
+						time.Sleep(time.Millisecond)
+						b := start(time.Second, 42)
+						time.Sleep(time.Millisecond)
+						a.Cancel()
+						if !ok(b) {
+							bad5++
+						}
+					}
+					if ctx.Err() != nil {
+						bad5++ // the caller's own context is never cancelled by the library
+					}
+					time.Sleep(time.Minute) // functions of cancelled executions run on to their end
+					synctest.Wait()
+				})
+			}
+		}
+	}
+	w.Add(func(id int) string { return fmt.Sprintf("CaseStress %d 7 %d %d", id, rounds5, bad5) },
+		map[string]any{"scenario": "one Executor carrying a context, used for several executions (all four async entry points; retry / hedge / no policy): Cancel() on the first execution then a later async and a sync one; Cancel() on an execution already done then a later one; two in flight, the older one cancelled. Every execution that was not cancelled must return what the synchronous execution returns; bad = violations", "rounds": rounds5, "bad": bad5}, true, "executor-context-reuse")
 	w.Stat(fmt.Sprintf("stress_trials=%d", 2*trials))
-	w.Close("(1) every scenario is run through a sync entry point and through the matching async entry point (result read with Get), then re-run asynchronously with ExecutionResult.Cancel() fired at instants taken from the run's own event times (+-1ns, midpoints); complete logs compared with the model; (2) the future protocol with 1-16 concurrent readers (Get / Result+Error / Done then Get) arriving before and around completion, for all four async entry points, successful and failing executions; (3) real-time stress of the Cancel-vs-InitializeRetry window and of the IsDone-vs-Done window. Non-trivial = a retry or a reported cancellation occurred, two or more readers, or a stress batch; distinct by inputs.", nil)
+	w.Close("(1) every scenario is run through a sync entry point and through the matching async entry point (result read with Get), then re-run asynchronously with ExecutionResult.Cancel() fired at instants taken from the run's own event times (+-1ns, midpoints); complete logs compared with the model; (2) the future protocol with 1-16 concurrent readers (Get / Result+Error / Done then Get) arriving before and around completion, for all four async entry points, successful and failing executions; (3) real-time stress of the Cancel-vs-InitializeRetry window and of the IsDone-vs-Done window; (4) one context-carrying Executor reused for several executions with Cancel() in between. Non-trivial = a retry or a reported cancellation occurred, two or more readers, or a stress batch; distinct by inputs.", nil)
 }
